@@ -557,7 +557,7 @@ def size_ladder(tier: str) -> list[int]:
     return base
 
 
-def gen_ops(seed: int, run: int, tier: str, with_faults: bool) -> list[dict]:
+def gen_ops(seed: int, run: int, tier: str, with_faults: bool, registry: list[str] | None = None) -> list[dict]:
     r = rng("c15-ops", seed, run)
     sizes = size_ladder(tier)
     n_ops = 40 if tier == "thorough" else 22
@@ -568,6 +568,10 @@ def gen_ops(seed: int, run: int, tier: str, with_faults: bool) -> list[dict]:
         variant = r.choice(["plain", "plain", "fn", "loop", "tied"])
         reqs.append(f"fx::c15::big-{n}-{k}-{variant}-{r.randrange(1, 9)}")
     reqs += [r.choice(["fx::c15::net", "fx::c15::outer", "fx::c15::resconv_nchw", "fx::c15::cf_scan"])]
+    # runtime parameters materialised as inputs, custom input/output names, double precision post-processing
+    reqs += [r.choice(["fx::c15::autoflags", "fx::c15::named_io", "fx::c15::flat_f64", "fx::c15::fn_boundary_f64", "fx::c15::kwblock", "fx::c15::f16_cast_chain"])]
+    if registry:
+        reqs += r.sample(registry, min(2, len(registry)))
     paths = ["a.onnx", "sub/dir/b.onnx", "rel:c.onnx"]
     ops: list[dict] = [{"op": "chdir", "to": "root"}] if r.random() < 0.4 else []
     sidecar_paths: set[str] = set()
@@ -581,9 +585,10 @@ def gen_ops(seed: int, run: int, tier: str, with_faults: bool) -> list[dict]:
                 has_sidecar = op["path"] in sidecar_paths
                 kinds = ["open_error", "torn_write", "torn_write"] + (["makedirs_error"] if not op["path"].startswith("rel:") else [])
                 if has_sidecar:
-                    kinds += ["remove_error", "remove_error", "getsize_error"]
+                    # web mode removes a leftover sidecar; standard mode measures it when nothing spilled
+                    kinds += ["remove_error", "remove_error"] if op["mode"] == "web" else ["getsize_error", "remove_error"]
                 kind = r.choice(kinds)
-                n = r.choice([0, 0, 1, 2]) if kind in ("open_error", "torn_write") else 0
+                n = r.choice([0, 0, 0, 1, 2]) if kind in ("open_error", "torn_write") else 0
                 f: dict = {"kind": kind, "n": n, "exc": r.choice(["OSError", "OSError", "SimInterrupt"])}
                 if kind == "torn_write":
                     f["m"] = r.choice([0, 1, 100, 4096, 524288, MIB - 1])
@@ -615,10 +620,18 @@ def main(tier: str) -> int:
     budget = float(os.environ.get("VERIF_BUDGET_S", "1500" if tier == "thorough" else "420"))
     print(f"[C15] VERIF_SEED={seed} tier={tier} budget={budget}s repo={co.repo_dir()}")
     n_runs = int(os.environ.get("VERIF_C15_RUNS", "192" if tier == "thorough" else "32"))
+    inv = co.run_plans([{"property": "C16", "ops": [{"op": "list_registry"}]}], timeout=300)[0]
+    if not inv or inv.get("status") != "ok":
+        print(f"HARNESS-ERROR property=C15 inventory failed: {inv}")
+        return 2
+    # the repo's own registered testcases as additional requests (functions, loops, symbolic dims, metadata);
+    # very large examples are left to the thorough tier
+    heavy = ("gpt", "vit", "dino", "maxdiffusion", "flux", "resnet", "transformer_stack", "cnn2", "llama", "gemma", "qwen")
+    registry = [p for p in inv["registry"] if tier == "thorough" or not any(h in p.lower() for h in heavy)]
     plans = []
     for i in range(n_runs):
         wf = i % 2 == 1
-        plans.append({"property": PROP, "hashseed": 0, "ops": gen_ops(seed, i, tier, wf), "with_faults": wf, "run": i})
+        plans.append({"property": PROP, "hashseed": 0, "ops": gen_ops(seed, i, tier, wf, registry), "with_faults": wf, "run": i})
     results = co.run_plans(plans, timeout=max(900.0, budget), deadline=t0 + budget)
     stats: Counter = Counter()
     sigs = set()
